@@ -336,6 +336,9 @@ class Run:
                 used[(ev, k)] = used.get((ev, k), 0) + 1
         missing = [(ev, k) for ev in mutators for k in range(len(mutators[ev])) if used.get((ev, k), 0) == 0]
         if missing:
+            if self.unlisted_so_far():
+                log("negative control skipped on an already rejected trace (no line to corrupt for %s)" % (missing,))
+                return
             raise Infra("negative control: no line to corrupt for %s in %s" % (missing, chunk))
         # keep stateful context: emit the whole chunk prefix up to the last chosen line
         last = max(chosen)
@@ -357,6 +360,14 @@ class Run:
         for lineno, prefix in expect:
             names = byline.get(lineno, [])
             if not any(n.startswith(prefix) for n in names):
+                if self.unlisted_so_far():
+                    # the real trace was already rejected: the controls protect against a vacuous specification on a
+                    # tree that PASSES; on a rejected trace a control that comes out differently does not undo the verdict
+                    log("negative control inconclusive on an already rejected trace (line %d, expected %s*, got %s); verdicts stand"
+                        % (lineno, prefix, names[:3]))
+                    self.cov.setdefault("negative_controls_inconclusive", 0)
+                    self.cov["negative_controls_inconclusive"] += 1
+                    continue
                 raise Infra("negative control FAILED: corrupted line %d of %s (expected a REJECT %s*) was accepted "
                             "(got %s) - the trace specification does not bind this field" % (lineno, path, prefix, names))
         self.cov["negative_controls"] += len(expect)
@@ -407,6 +418,11 @@ class Run:
                         self.nontrivial.add(k)
 
     # --------------------------------------------------------------- finish
+    def unlisted_so_far(self):
+        """verdict-bearing REJECTs recorded so far that no open known finding lists"""
+        mine = [k for k in load_known() if k.get("property") == self.pid and k.get("status", "open") == "open"]
+        return [r for r in self.rejects if not r["name"].startswith("EXT.") and not any(match_known(k, r) for k in mine)]
+
     def finish(self):
         kf = load_known()
         mine = [k for k in kf if k.get("property") == self.pid and k.get("status", "open") == "open"]
